@@ -136,3 +136,311 @@ Qed.
 
 Theorem insert_prev_get v p : insert_prev v p = get v p.
 Proof. apply ins_prev_get. Qed.
+
+(* ---------- characterisation of arr_set position by position ---------- *)
+
+Lemma nth_error_ge {A} (l : list A) n : length l <= n -> nth_error l n = None.
+Proof. apply nth_error_None. Qed.
+
+Lemma arr_set_nth_nonneg a i x n :
+  (0 <= i)%Z ->
+  nth_error (arr_set a i x) n =
+  if Nat.eqb n (Z.to_nat i) then Some x
+  else if Nat.ltb n (length a) then nth_error a n
+  else if Nat.ltb n (Z.to_nat i) then Some VNull else None.
+Proof.
+  intros Hi. unfold arr_set. destruct (Z.leb_spec 0 i); [|lia].
+  destruct (Nat.leb_spec (length a) (Z.to_nat i)) as [Hl|Hl].
+  - destruct (Nat.eqb_spec n (Z.to_nat i)) as [->|Hn].
+    + rewrite app_assoc, nth_error_app2; rewrite app_length, repeat_length; [|lia].
+      replace (Z.to_nat i - (length a + (Z.to_nat i - length a))) with 0 by lia. reflexivity.
+    + destruct (Nat.ltb_spec n (length a)).
+      * rewrite nth_error_app1; auto.
+      * rewrite nth_error_app2 by lia.
+        destruct (Nat.ltb_spec n (Z.to_nat i)).
+        -- rewrite nth_error_app1 by (rewrite repeat_length; lia).
+           apply nth_error_repeat. lia.
+        -- rewrite nth_error_app2 by (rewrite repeat_length; lia).
+           rewrite repeat_length. apply nth_error_ge. cbn. lia.
+  - destruct (Nat.eqb_spec n (Z.to_nat i)) as [->|Hn].
+    + apply nth_error_list_set_same. lia.
+    + rewrite nth_error_list_set_other by congruence.
+      destruct (Nat.ltb_spec n (length a)); auto.
+      rewrite nth_error_ge by lia.
+      destruct (Nat.ltb_spec n (Z.to_nat i)); auto. lia.
+Qed.
+
+Lemma arr_set_nth_neg_in a i x n :
+  (i < 0)%Z -> Z.to_nat (- i) <= length a ->
+  nth_error (arr_set a i x) n =
+  if Nat.eqb n (length a - Z.to_nat (- i)) then Some x else nth_error a n.
+Proof.
+  intros Hi Hr. unfold arr_set. destruct (Z.leb_spec 0 i); [lia|].
+  destruct (Nat.ltb_spec (length a) (Z.to_nat (- i))); [lia|].
+  destruct (Nat.eqb_spec n (length a - Z.to_nat (- i))) as [->|Hn].
+  - apply nth_error_list_set_same. lia.
+  - apply nth_error_list_set_other. congruence.
+Qed.
+
+Lemma arr_set_nth_neg_out a i x n :
+  (i < 0)%Z -> length a < Z.to_nat (- i) ->
+  nth_error (arr_set a i x) n =
+  if Nat.eqb n 0 then Some x
+  else if Nat.ltb n (Z.to_nat (- i) - length a) then Some VNull
+  else nth_error a (n - (Z.to_nat (- i) - length a)).
+Proof.
+  intros Hi Hr. unfold arr_set. destruct (Z.leb_spec 0 i); [lia|].
+  destruct (Nat.ltb_spec (length a) (Z.to_nat (- i))); [|lia].
+  destruct n as [|n]; cbn [Nat.eqb nth_error]; auto.
+  destruct (Nat.ltb_spec (S n) (Z.to_nat (- i) - length a)).
+  - rewrite nth_error_app1 by (rewrite repeat_length; lia). apply nth_error_repeat. lia.
+  - rewrite nth_error_app2 by (rewrite repeat_length; lia). rewrite repeat_length. f_equal. lia.
+Qed.
+
+Lemma length_arr_set' a i x : length (arr_set a i x) = new_len (length a) i.
+Proof. rewrite length_arr_set. reflexivity. Qed.
+
+(* the non-recursive index/index cases of disjoint_stable *)
+Lemma arr_get_set_frame a i j x :
+  i <> j ->
+  (if in_range (length a) i && in_range (length a) j then
+     negb match arr_index (length a) i, arr_index (length a) j with
+          | Some n, Some m => Nat.eqb n m | _, _ => false end
+   else if in_range (length a) j then
+     ((0 <=? i)%Z && (0 <=? j)%Z) || ((i <? 0)%Z && (j <? 0)%Z)
+   else negb (in_range (new_len (length a) i) j)) = true ->
+  arr_get (arr_set a i x) j = arr_get a j.
+Proof.
+  intros Hne H. unfold arr_get. rewrite length_arr_set'.
+  unfold in_range, arr_index, new_len in *.
+  destruct (Z.leb_spec 0 i) as [Hi|Hi]; destruct (Z.leb_spec 0 j) as [Hj|Hj]; cbn [andb orb] in H.
+  - (* i >= 0, j >= 0 *)
+    rewrite arr_set_nth_nonneg by lia.
+    destruct (Nat.eqb_spec (Z.to_nat j) (Z.to_nat i)); [lia|].
+    destruct (Nat.ltb_spec (Z.to_nat j) (length a)) as [Hjl|Hjl]; auto.
+    rewrite (nth_error_ge a) by lia.
+    destruct (Nat.ltb_spec (Z.to_nat i) (length a)) as [Hil|Hil]; cbn [andb] in H.
+    + destruct (Nat.ltb_spec (Z.to_nat j) (Z.to_nat i)); auto; lia.
+    + destruct (Nat.ltb_spec (Z.to_nat j) (Nat.max (length a) (S (Z.to_nat i)))); cbn in H; try discriminate.
+      destruct (Nat.ltb_spec (Z.to_nat j) (Z.to_nat i)); auto; lia.
+  - (* i >= 0, j < 0 *)
+    destruct (Z.leb_spec 0 (Z.of_nat (length a) + j)) as [Hjr|Hjr].
+    + (* j in range in the old array *)
+      assert (Hjl : Z.to_nat (Z.of_nat (length a) + j) < length a) by lia.
+      destruct (Nat.ltb_spec (Z.to_nat (Z.of_nat (length a) + j)) (length a)); [|lia].
+      destruct (Nat.ltb_spec (Z.to_nat i) (length a)) as [Hil|Hil]; cbn [andb] in H.
+      * replace (Nat.max (length a) (S (Z.to_nat i))) with (length a) by lia.
+        destruct (Z.leb_spec 0 (Z.of_nat (length a) + j)); [|lia].
+        rewrite arr_set_nth_nonneg by lia.
+        destruct (Nat.eqb_spec (Z.to_nat i) (Z.to_nat (Z.of_nat (length a) + j))); cbn in H; try discriminate.
+        destruct (Nat.eqb_spec (Z.to_nat (Z.of_nat (length a) + j)) (Z.to_nat i)); [lia|].
+        destruct (Nat.ltb_spec (Z.to_nat (Z.of_nat (length a) + j)) (length a)); auto; lia.
+      * cbn [andb orb] in H. destruct (Z.ltb_spec i 0); [lia|]. cbn [andb] in H. discriminate.
+    + (* j out of range in the old array *)
+      destruct (Nat.ltb_spec (Z.to_nat i) (length a)) as [Hil|Hil]; cbn [andb] in H.
+      * replace (Nat.max (length a) (S (Z.to_nat i))) with (length a) by lia.
+        destruct (Z.leb_spec 0 (Z.of_nat (length a) + j)); [lia|]. reflexivity.
+      * destruct (Z.leb_spec 0 (Z.of_nat (Nat.max (length a) (S (Z.to_nat i))) + j)) as [Hn|Hn]; auto.
+        destruct (Nat.ltb_spec (Z.to_nat (Z.of_nat (Nat.max (length a) (S (Z.to_nat i))) + j))
+                    (Nat.max (length a) (S (Z.to_nat i)))); cbn in H; try discriminate. lia.
+  - (* i < 0, j >= 0 *)
+    destruct (Z.leb_spec 0 (Z.of_nat (length a) + i)) as [Hir|Hir].
+    + (* i in range: no padding *)
+      replace (Nat.max (length a) (Z.to_nat (- i))) with (length a) by lia.
+      rewrite arr_set_nth_neg_in by lia.
+      destruct (Nat.ltb_spec (Z.to_nat (Z.of_nat (length a) + i)) (length a)); [|lia].
+      destruct (Nat.ltb_spec (Z.to_nat j) (length a)) as [Hjl|Hjl]; cbn [andb] in H.
+      * destruct (Nat.eqb_spec (Z.to_nat (Z.of_nat (length a) + i)) (Z.to_nat j)); cbn in H; try discriminate.
+        destruct (Nat.eqb_spec (Z.to_nat j) (length a - Z.to_nat (- i))); auto; lia.
+      * destruct (Nat.eqb_spec (Z.to_nat j) (length a - Z.to_nat (- i))); auto; lia.
+    + (* front padding *)
+      cbn [andb] in H.
+      destruct (Nat.ltb_spec (Z.to_nat j) (length a)) as [Hjl|Hjl].
+      * destruct (Z.ltb_spec i 0); [|lia]. destruct (Z.ltb_spec j 0); [lia|]. cbn in H. discriminate.
+      * destruct (Nat.ltb_spec (Z.to_nat j) (Nat.max (length a) (Z.to_nat (- i)))); cbn in H; try discriminate.
+        rewrite (nth_error_ge a) by lia. apply nth_error_ge. rewrite length_arr_set'. unfold new_len.
+        destruct (Z.leb_spec 0 i); lia.
+  - (* i < 0, j < 0 *)
+    destruct (Z.leb_spec 0 (Z.of_nat (length a) + i)) as [Hir|Hir].
+    + replace (Nat.max (length a) (Z.to_nat (- i))) with (length a) by lia.
+      destruct (Z.leb_spec 0 (Z.of_nat (length a) + j)) as [Hjr|Hjr]; auto.
+      rewrite arr_set_nth_neg_in by lia.
+      destruct (Nat.ltb_spec (Z.to_nat (Z.of_nat (length a) + i)) (length a)); [|lia].
+      destruct (Nat.ltb_spec (Z.to_nat (Z.of_nat (length a) + j)) (length a)); [|lia].
+      cbn [andb] in H.
+      destruct (Nat.eqb_spec (Z.to_nat (Z.of_nat (length a) + i)) (Z.to_nat (Z.of_nat (length a) + j))); cbn in H; try discriminate.
+      destruct (Nat.eqb_spec (Z.to_nat (Z.of_nat (length a) + j)) (length a - Z.to_nat (- i))); auto; lia.
+    + cbn [andb] in H.
+      replace (Nat.max (length a) (Z.to_nat (- i))) with (Z.to_nat (- i)) in * by lia.
+      destruct (Z.leb_spec 0 (Z.of_nat (length a) + j)) as [Hjr|Hjr].
+      * destruct (Z.leb_spec 0 (Z.of_nat (Z.to_nat (- i)) + j)); [|lia].
+        rewrite arr_set_nth_neg_out by lia.
+        destruct (Nat.eqb_spec (Z.to_nat (Z.of_nat (Z.to_nat (- i)) + j)) 0); [lia|].
+        destruct (Nat.ltb_spec (Z.to_nat (Z.of_nat (Z.to_nat (- i)) + j)) (Z.to_nat (- i) - length a)); [lia|].
+        f_equal. lia.
+      * destruct (Z.leb_spec 0 (Z.of_nat (Z.to_nat (- i)) + j)) as [Hn|Hn]; auto.
+        destruct (Nat.ltb_spec (Z.to_nat (Z.of_nat (Z.to_nat (- i)) + j)) (Z.to_nat (- i))); cbn in H; try discriminate. lia.
+Qed.
+
+(* ---------- law 2: frame ---------- *)
+
+Lemma get_opt_field slot k q : get_opt slot (SField k :: q) = get_opt (obj_get (as_obj slot) k) q.
+Proof.
+  destruct slot as [[?|?|?|?|?|?|m|a|]|]; cbn; auto.
+Qed.
+
+Lemma get_opt_index slot j q : get_opt slot (SIndex j :: q) = get_opt (arr_get (as_arr slot) j) q.
+Proof.
+  destruct slot as [[?|?|?|?|?|?|m|a|]|]; cbn; rewrite ?arr_get_nil; auto.
+Qed.
+
+Lemma arr_alias a i j x :
+  in_range (length a) i = true -> in_range (length a) j = true ->
+  match arr_index (length a) i, arr_index (length a) j with
+  | Some n, Some m => Nat.eqb n m | _, _ => false end = true ->
+  arr_get (arr_set a i x) j = Some x /\ arr_get a j = arr_get a i.
+Proof.
+  intros Hi Hj He. unfold arr_get. rewrite length_arr_set'.
+  assert (Hl : new_len (length a) i = length a).
+  { unfold new_len, in_range, arr_index in *.
+    destruct (Z.leb_spec 0 i).
+    - destruct (Nat.ltb_spec (Z.to_nat i) (length a)); try discriminate. lia.
+    - destruct (Z.leb_spec 0 (Z.of_nat (length a) + i)); try discriminate. lia. }
+  rewrite Hl.
+  destruct (arr_index (length a) i) as [n|] eqn:Ei; try discriminate.
+  destruct (arr_index (length a) j) as [m|] eqn:Ej; try discriminate.
+  apply Nat.eqb_eq in He. subst m. split; auto.
+  pose proof (arr_get_set_same a i x) as G. unfold arr_get in G.
+  rewrite length_arr_set', Hl, Ei in G. exact G.
+Qed.
+
+Lemma ins_frame p : forall slot q x,
+  disjoint_stable slot p q = true -> get (ins slot p x) q = get_opt slot q.
+Proof.
+  induction p as [|[k1|i] p IH]; intros slot q x H; destruct q as [|[k2|j] q];
+    cbn [disjoint_stable] in H; try discriminate.
+  - (* field / field *)
+    rewrite get_opt_field. cbn [ins get]. fold (as_obj slot).
+    destruct (bytes_eqb k1 k2) eqn:E.
+    + apply bytes_eqb_eq in E. subst k2. rewrite obj_get_set_same. apply IH. exact H.
+    + apply bytes_eqb_neq in E. rewrite obj_get_set_other by congruence.
+      unfold get_opt, as_obj. reflexivity.
+  - (* field / index *)
+    cbn [ins get]. destruct slot as [[?|?|?|?|?|?|m|a|]|]; cbn; auto.
+    unfold arr_get, in_range in *. destruct (arr_index (length a) j); auto.
+    apply negb_true_iff, Nat.ltb_ge in H. rewrite nth_error_ge; auto.
+  - (* index / field *)
+    cbn [ins get]. destruct slot as [[?|?|?|?|?|?|m|a|]|]; cbn; auto.
+    destruct (obj_get m k2); auto. discriminate.
+  - (* index / index *)
+    rewrite get_opt_index. cbn [ins get]. fold (as_arr slot).
+    set (a := as_arr slot) in *.
+    destruct (Z.eqb_spec i j) as [->|Hne].
+    + rewrite arr_get_set_same. apply IH. exact H.
+    + destruct (in_range (length a) i && in_range (length a) j) eqn:Er.
+      * destruct (match arr_index (length a) i, arr_index (length a) j with
+                  | Some n, Some m => Nat.eqb n m | _, _ => false end) eqn:Ea.
+        -- apply andb_true_iff in Er. destruct Er as [Ri Rj].
+           destruct (arr_alias a i j (ins (arr_get a i) p x) Ri Rj Ea) as [G1 G2].
+           rewrite G1, G2. apply IH. exact H.
+        -- rewrite arr_get_set_frame; [reflexivity | exact Hne | rewrite Er, Ea; reflexivity].
+      * rewrite arr_get_set_frame; [reflexivity | exact Hne | rewrite Er; exact H].
+Qed.
+
+Theorem insert_frame v p q x :
+  disjoint_stable (Some v) p q = true -> get (insert v p x) q = get v q.
+Proof. intros H. apply (ins_frame p (Some v) q x H). Qed.
+
+(* the clean special case: field-only paths, neither a prefix of the other *)
+Fixpoint all_fields (p : path) : bool :=
+  match p with [] => true | SField _ :: p' => all_fields p' | SIndex _ :: _ => false end.
+
+Fixpoint is_prefix (p q : path) : bool :=
+  match p, q with
+  | [], _ => true
+  | s :: p', t :: q' => seg_eqb s t && is_prefix p' q'
+  | _ :: _, [] => false
+  end.
+
+Lemma fields_disjoint_stable p : forall slot q,
+  all_fields p = true -> all_fields q = true ->
+  is_prefix p q = false -> is_prefix q p = false -> disjoint_stable slot p q = true.
+Proof.
+  induction p as [|[k1|i] p IH]; intros slot [|[k2|j] q] Hp Hq H1 H2; cbn in *; try discriminate; auto.
+  rewrite (bytes_eqb_sym k2 k1) in H2.
+  destruct (bytes_eqb k1 k2); cbn in *; auto.
+Qed.
+
+Theorem insert_frame_fields v p q x :
+  all_fields p = true -> all_fields q = true ->
+  is_prefix p q = false -> is_prefix q p = false ->
+  get (insert v p x) q = get v q.
+Proof. intros. apply insert_frame. apply fields_disjoint_stable; auto. Qed.
+
+(* ---------- law 3: remove returns exactly what get returned ---------- *)
+
+Lemma arr_remove_get a i :
+  match arr_remove a i with Some (x, _) => arr_get a i = Some x | None => arr_get a i = None end.
+Proof.
+  unfold arr_remove, arr_get. destruct (arr_index (length a) i); auto.
+  destruct (nth_error a n); auto.
+Qed.
+
+Lemma rm_get p : forall c prune,
+  match rm c p prune with
+  | Some (prev, _) => get c p = Some prev
+  | None => p = [] \/ get c p = None
+  end.
+Proof.
+  induction p as [|s p IH]; intros c prune; [left; reflexivity|].
+  destruct s as [f|i]; cbn [rm get].
+  - destruct c as [?|?|?|?|?|?|m|a|]; auto.
+    destruct p as [|s' p'].
+    + destruct (obj_get m f); auto.
+    + destruct (obj_get m f) as [c'|]; auto.
+      specialize (IH c' prune). destruct (rm c' (s' :: p') prune) as [[prev c'']|]; auto.
+      destruct IH as [IH|IH]; [discriminate|auto].
+  - destruct c as [?|?|?|?|?|?|m|a|]; auto.
+    destruct p as [|s' p'].
+    + pose proof (arr_remove_get a i) as G. destruct (arr_remove a i) as [[x a']|]; rewrite G; auto.
+    + destruct (arr_get a i) as [c'|]; auto.
+      specialize (IH c' prune). destruct (rm c' (s' :: p') prune) as [[prev c'']|]; auto.
+      destruct IH as [IH|IH]; [discriminate|auto].
+Qed.
+
+Theorem remove_returns_get v p prune : fst (remove v p prune) = get v p.
+Proof.
+  unfold remove. destruct p as [|s p].
+  - destruct v; reflexivity.
+  - pose proof (rm_get (s :: p) v prune) as G.
+    destruct (rm v (s :: p) prune) as [[prev v']|]; cbn [fst]; auto.
+    destruct G as [G|G]; [discriminate|auto].
+Qed.
+
+(* a failed removal leaves the value untouched *)
+Theorem remove_none_unchanged v p prune : get v p = None -> remove v p prune = (None, v).
+Proof.
+  intros G. unfold remove. destruct p as [|s p]; [discriminate|].
+  pose proof (rm_get (s :: p) v prune) as R.
+  destruct (rm v (s :: p) prune) as [[prev v']|]; auto. congruence.
+Qed.
+
+(* ---------- law 4: paths through a non-container find nothing ---------- *)
+
+Lemma get_app p1 : forall v p2,
+  get v (p1 ++ p2) = match get v p1 with Some w => get w p2 | None => None end.
+Proof.
+  induction p1 as [|[k|i] p1 IH]; intros v p2; cbn [app get]; auto.
+  - destruct v as [?|?|?|?|?|?|m|a|]; auto. destruct (obj_get m k); auto.
+  - destruct v as [?|?|?|?|?|?|m|a|]; auto. destruct (arr_get a i); auto.
+Qed.
+
+Theorem through_scalar v p1 w s p2 prune :
+  get v p1 = Some w -> is_scalar w = true ->
+  get v (p1 ++ s :: p2) = None /\ remove v (p1 ++ s :: p2) prune = (None, v).
+Proof.
+  intros G S.
+  assert (H : get v (p1 ++ s :: p2) = None).
+  { rewrite get_app, G. destruct s, w; cbn in *; auto; discriminate. }
+  split; auto. apply remove_none_unchanged. exact H.
+Qed.
